@@ -5,8 +5,9 @@ Implementation under test (real code, in-process):
   B. StatusMonitor(experiment).stageWeights + the real CheckStatus closure of StatusMonitor.run
      driven once with a fake controller                         -> weights used for reporting, total progress
   C. a real Controller (deterministic runtime harness/detsim.py) on a generated package with DoWhile documents:
-     Controller.get_stage_status / get_stages_in_transit / get_stages_finished / finishedCheck /
-     _instantiate_next_dowhile_iteration + the real CheckStatus   -> per-stage progress and total along histories
+     Controller.get_stage_status / get_stages_in_transit / get_stages_finished / finishedCheck (components ending
+     FINISHED, SHUTDOWN, FAILED; comp_done) / _fake_finish_with_state / _stopComponents /
+     _instantiate_next_dowhile_iteration + the real CheckStatus   -> per-stage progress, stage lists and total
 Model: lean/St4sd/Model/Weights.lean via drv-c20.  Theorems: lean/St4sd/Props/C20.lean.
 """
 from __future__ import annotations
@@ -535,8 +536,25 @@ def ctl_refs(k, st, iterations):
     return out
 
 
+FINALS = ("finished", "shutdown", "failed")
+
+
+def norm_op(op):
+    """["done", ref] is the older spelling of ["term", ref, "finished"]"""
+    if op[0] == "done":
+        return ["term", op[1], "finished"]
+    return op
+
+
 class CtlSim:
-    """What the case says happens (pure bookkeeping, independent of the real code and of the Lean model)."""
+    """What the case says happens (pure bookkeeping, independent of the real code and of the Lean model).
+
+    state[ref]   final state the component reached ("finished" | "shutdown" | "failed"); absent = alive
+    delivered    the terminations the controller has observed (its finishedCheck ran for them)
+    A FAILED component of the current (or an earlier) stage that is observed stops the stage: every component of the
+    stage that has not terminated is SHUTDOWN and observed (Controller.finishedCheck: _fake_finish_with_state +
+    _stopComponents).  ["stop", k]: the package's IsStageComplete hook declared the running stage complete: the same
+    for stage k."""
 
     def __init__(self, case):
         self.stages = case["stages"]
@@ -544,11 +562,17 @@ class CtlSim:
         self.cur = self.start
         self.iters = [1 if st["loop"] else 0 for st in self.stages]
         self.pop = [ctl_refs(k, st, self.iters[k]) for k, st in enumerate(self.stages)]
-        self.done = set()
+        self.state = {}
         self.delivered = set()
         for k in range(self.start):          # the earlier run of a restarted experiment completed these stages
-            self.done.update(self.pop[k])
+            for r in self.pop[k]:
+                self.state[r] = "finished"
             self.delivered.update(self.pop[k])
+
+    @property
+    def done(self):
+        """terminated successfully"""
+        return set(r for r, f in self.state.items() if f == "finished")
 
     def stage_of(self, ref):
         return int(ref.split(".")[0][5:])
@@ -562,125 +586,182 @@ class CtlSim:
         self.pop[k] += ["stage%d.%d#l%d" % (k, i, j) for j in range(self.stages[k]["loop"])]
 
     def valid(self, op):
+        op = norm_op(op)
         kind = op[0]
         if kind == "q":
             return True
-        if kind == "done":
-            return op[1] in self.pop[self.stage_of(op[1])] and op[1] not in self.done
+        if kind == "term":
+            k = self.stage_of(op[1])
+            if not (0 <= k < len(self.stages)) or op[1] not in self.pop[k] or op[1] in self.state or op[2] not in FINALS:
+                return False
+            # a failure in a FUTURE stage makes the controller kill the whole experiment: not a continuing history
+            return op[2] != "failed" or k <= self.cur
         if kind == "fc":
-            return op[1] in self.done and op[1] not in self.delivered
+            return op[1] in self.state and op[1] not in self.delivered
         if kind == "adv":
             k = op[1]
             return self.start <= k < len(self.stages) and self.stages[k]["loop"] > 0 and self.cond_ref(k) not in self.delivered
+        if kind == "stop":
+            return op[1] == self.cur
         if kind == "next":
             return self.cur + 1 < len(self.stages) and all(r in self.delivered for r in self.pop[self.cur])
         return False
 
+    def _stop_stage(self, k):
+        for r in self.pop[k]:
+            if r not in self.state:
+                self.state[r] = "shutdown"
+                self.delivered.add(r)
+
     def apply(self, op):
-        """returns the model-level operations [["fin", k, i] | ["grow", k, m] | ["q"]]"""
+        """returns the model-level operations
+        [["term", k, i, f] | ["see", k, i] | ["grow", k, m] | ["stop", k] | ["next"] | ["q"]]"""
+        op = norm_op(op)
         kind = op[0]
         if kind == "q":
             return [["q"]]
-        if kind == "done":
+        if kind == "term":
             k = self.stage_of(op[1])
-            self.done.add(op[1])
-            return [["fin", k, self.pop[k].index(op[1])]]
+            self.state[op[1]] = op[2]
+            return [["term", k, self.pop[k].index(op[1]), op[2]]]
         if kind == "fc":
             k = self.stage_of(op[1])
-            grew = op[1] == self.cond_ref(k) and str(op[2]).strip().lower() == "true"
+            out = [["see", k, self.pop[k].index(op[1])]]
+            grew = (op[1] == self.cond_ref(k) and str(op[2]).strip().lower() == "true"
+                    and self.state[op[1]] == "finished")
             self.delivered.add(op[1])
             if grew:
                 self.grow(k)
-                return [["grow", k, self.stages[k]["loop"]]]
-            return []
+                out.append(["grow", k, self.stages[k]["loop"]])
+            if self.state[op[1]] == "failed":
+                self._stop_stage(k)
+                out.append(["stop", k])
+            return out
         if kind == "adv":
             self.grow(op[1])
             return [["grow", op[1], self.stages[op[1]]["loop"]]]
+        if kind == "stop":
+            self._stop_stage(op[1])
+            return [["stop", op[1]]]
         if kind == "next":
             self.cur += 1
-            return []
+            return [["next"]]
         raise ValueError(op)
 
     def fractions(self):
-        return [[sum(1 for r in p if r in self.done), len(p)] for p in self.pop]
+        return [[sum(1 for r in p if self.state.get(r) == "finished"), len(p)] for p in self.pop]
+
+    def completed(self, k):
+        """every component stage k has now terminated (in whatever final state) and the controller observed it"""
+        return all(r in self.delivered for r in self.pop[k])
+
+    def all_successful(self, k):
+        return all(self.state.get(r) == "finished" for r in self.pop[k])
 
 
 def gen_ctl_case(rng, kind=None):
-    n = rng.choice([1, 2, 2, 3, 3, 4])
+    """kind: None = random; "success" = every component ends FINISHED (the family of the earlier rounds);
+    "finals" = components end FINISHED / SHUTDOWN / FAILED (an observed failure stops the rest of its stage, the
+    IsStageComplete hook stops the running stage) and the experiment carries on with the next stage"""
+    finals = (kind or rng.choice(["success", "finals", "finals"])) == "finals"
+    n = rng.choice([1, 2, 2, 3, 3, 4]) if not finals else rng.choice([2, 2, 3, 3, 4, 5])
     stages = []
     for k in range(n):
-        loop = rng.choice([0, 0, 1, 1, 2, 3])
+        loop = rng.choice([0, 0, 1, 1, 2, 3]) if not finals else rng.choice([0, 0, 0, 1, 2])
         static = rng.randint(0 if loop else 1, 3)
         stages.append({"static": static, "loop": loop})
-    if not any(st["loop"] for st in stages):
+    if not finals and not any(st["loop"] for st in stages):
         stages[rng.randrange(n)]["loop"] = rng.choice([1, 2])
     start = 0
     if n >= 2 and rng.random() < 0.2:
         start = rng.randint(1, n - 1)
         for k in range(start):          # finished stages of the earlier run: keep them free of loops
             stages[k] = {"static": max(1, stages[k]["static"]), "loop": 0}
-        if not any(st["loop"] for st in stages):
+        if not finals and not any(st["loop"] for st in stages):
             stages[start]["loop"] = 1
     wkind = rng.choice(["proper3", "proper3", "proper", "proper_missing", "random", "missing"])
     _, spec = gen_spec(rng, n, kinds=[wkind])
-    case = {"kind": "ctl:" + wkind, "spec": spec, "stages": stages, "start": start, "ops": []}
+    case = {"kind": "ctl:" + ("finals:" if finals else "") + wkind, "spec": spec, "stages": stages, "start": start,
+            "ops": []}
     sim = CtlSim(case)
     max_iter = rng.choice([2, 3, 3, 4])
+    # how the components of this case tend to end
+    mix = rng.choice([(6, 3, 1), (4, 4, 2), (2, 6, 2), (5, 0, 3), (5, 5, 0)]) if finals else (1, 0, 0)
+
+    def final_for(ref):
+        f = rng.choices(FINALS, weights=mix)[0]
+        if f == "failed" and sim.stage_of(ref) > sim.cur:
+            f = "shutdown"
+        return f
+
     ops = []
+
+    def emit(o):
+        ops.append(o)
+        sim.apply(o)
+
     if rng.random() < 0.8:
         ops.append(["q"])            # somebody asks before anything happened (the first tick of the status monitor)
-    finish_all = rng.random() < 0.6
+    finish_all = rng.random() < (0.6 if not finals else 0.75)
     for _ in range(rng.randint(4, 40)):
-        cands = []
-        undone = [r for k in range(start, n) for r in sim.pop[k] if r not in sim.done]
+        undone = [r for k in range(start, n) for r in sim.pop[k] if r not in sim.state]
         # prefer the current stage, but later stages run ahead as well
         pref = [r for r in undone if sim.stage_of(r) <= sim.cur] or undone
-        pend = sorted(r for r in sim.done if r not in sim.delivered)
+        pend = sorted(r for r in sim.state if r not in sim.delivered)
         r_ = rng.random()
-        if r_ < 0.25:
+        if sim.valid(["next"]) and rng.random() < 0.3:
+            op = ["next"]                # the running stage completed: the stage loop moves on promptly
+        elif r_ < 0.25:
             op = ["q"]
-        elif r_ < 0.75 and undone:
+        elif r_ < 0.72 and undone:
             ref = rng.choice(pref if rng.random() < 0.7 else undone)
-            op = ["done", ref]
-        elif r_ < 0.93 and pend:
+            f = final_for(ref)
+            op = ["done", ref] if f == "finished" else ["term", ref, f]
+        elif r_ < 0.90 and pend:
             op = ["fc", rng.choice(pend), None]
-        elif r_ < 0.96:
+        elif r_ < 0.93:
             op = ["adv", rng.randrange(n)]
+        elif r_ < 0.96 and finals:
+            op = ["stop", sim.cur]
         else:
             op = ["next"]
         if not sim.valid(op):
             continue
-        both = op[0] == "done" and rng.random() < 0.6
+        both = op[0] in ("done", "term") and rng.random() < 0.6
         for o in ([op, ["fc", op[1], None]] if both else [op]):
             if o[0] == "fc":
                 k = sim.stage_of(o[1])
                 if o[1] == sim.cond_ref(k):
                     o[2] = "True" if (sim.iters[k] < max_iter and rng.random() < 0.7) else "False"
-            ops.append(o)
-            sim.apply(o)
-            if o[0] == "fc" and o[2] == "True" and rng.random() < 0.6:
-                ops.append(["q"])
-                sim.apply(["q"])
+            emit(o)
+            if o[0] in ("stop", "next") or (o[0] == "fc" and (o[2] == "True" or sim.state.get(o[1]) == "failed")):
+                if rng.random() < 0.6:
+                    emit(["q"])
     if finish_all:
-        # everything completes: every component finishes, every notification is delivered, the stage loop ends
+        # everything completes: every component terminates, every notification is delivered, the stage loop ends
+        last_ok = rng.random() < 0.6       # the last stage ends with success only
         guard = 0
-        while guard < 200:
+        while guard < 300:
             guard += 1
-            undone = [r for k in range(start, n) for r in sim.pop[k] if r not in sim.done]
-            pend = sorted(r for r in sim.done if r not in sim.delivered)
+            undone = [r for k in range(start, n) for r in sim.pop[k] if r not in sim.state]
+            pend = sorted(r for r in sim.state if r not in sim.delivered)
             if pend:
                 ref = pend[0]
                 k = sim.stage_of(ref)
                 o = ["fc", ref, "False" if ref == sim.cond_ref(k) else None]
-            elif undone:
-                o = ["done", undone[0]]
-            elif sim.valid(["next"]):
+            elif sim.valid(["next"]) and (not undone or rng.random() < 0.7):
                 o = ["next"]
+            elif undone:
+                ref = undone[0]
+                f = "finished" if (last_ok and sim.stage_of(ref) == n - 1) else final_for(ref)
+                if finals and f != "failed" and sim.stage_of(ref) == sim.cur and rng.random() < 0.1:
+                    o = ["stop", sim.cur]
+                else:
+                    o = ["done", ref] if f == "finished" else ["term", ref, f]
             else:
                 break
-            ops.append(o)
-            sim.apply(o)
-            if rng.random() < 0.15:
+            emit(o)
+            if rng.random() < (0.15 if not finals else 0.3) or o[0] == "next":
                 ops.append(["q"])
     ops.append(["q"])
     case["ops"] = ops
@@ -758,13 +839,34 @@ def impl_ctl(case, tmp):
                                     "cur": int(ctl.currentStage.index),
                                     "transit": list(ctl.get_stages_in_transit()),
                                     "finished": list(ctl.get_stages_finished())})
-                elif op[0] == "done":
+                elif op[0] == "done" or (op[0] == "term" and op[2] == "finished"):
                     comp = ctl.get_compstate(op[1])
                     eng = comp.engine
                     if not eng.started:
                         eng.run()
                     eng.die("Success")
                     comp.finish(codes.FINISHED_STATE)
+                elif op[0] == "term" and op[2] == "failed":
+                    # the task exits with an error the component does not recover from
+                    comp = ctl.get_compstate(op[1])
+                    eng = comp.engine
+                    if not eng.started:
+                        eng.run()
+                    eng.die("KnownIssue")
+                    comp.finish(codes.FAILED_STATE)
+                elif op[0] == "term" and op[2] == "shutdown":
+                    # somebody stops the component (what Controller._stopComponents does to one component)
+                    comp = ctl.get_compstate(op[1])
+                    comp.finish(codes.SHUTDOWN_STATE)
+                elif op[0] == "stop":
+                    # the package's IsStageComplete hook said True for stage k: body of the closure that
+                    # Controller._observe_completionCheck runs (real _fake_finish_with_state / _stopComponents)
+                    comps = sorted(ctl.get_components_in_stage(op[1]), key=lambda c: c.specification.reference)
+                    with ctl.comp_lock:
+                        for comp in comps:
+                            if comp not in ctl.comp_staged_in and comp.finishCalled is False:
+                                ctl._fake_finish_with_state(comp, codes.SHUTDOWN_STATE)
+                        ctl._stopComponents(comps, False)
                 elif op[0] == "fc":
                     comp = ctl.get_compstate(op[1])
                     if op[2] is not None:
@@ -808,11 +910,28 @@ def as_fraction(v):
     return [f.numerator, f.denominator]
 
 
-def check_ctl_cases(ctx, cases):
+def old_model_ops(mops):
+    """the history in the vocabulary of Weights.run (every component ends FINISHED): None when it is not such a one"""
+    out = []
+    for o in mops:
+        if o[0] == "term":
+            if o[3] != "finished":
+                return None
+            out.append(["fin", o[1], o[2]])
+        elif o[0] == "stop":
+            return None
+        elif o[0] in ("grow", "q"):
+            out.append(o)
+    return out
+
+
+def check_ctl_cases(ctx, cases, outs=None):
     tmp = tempfile.mkdtemp(prefix="c20ctl-")
     try:
         for case in cases:
             sim = CtlSim(case)
+            n = len(case["stages"])
+            start = int(case.get("start", 0))
             mops, expect = [], []
             ok = True
             for op in case["ops"]:
@@ -821,25 +940,36 @@ def check_ctl_cases(ctx, cases):
                     break
                 mops += sim.apply(op)
                 if op[0] == "q":
-                    expect.append({"fr": sim.fractions(), "cur": sim.cur,
-                                   "complete": all(r in sim.done for p in sim.pop for r in p)})
+                    completed = [k < start or sim.completed(k) for k in range(n)]
+                    success = [k < start or sim.all_successful(k) for k in range(n)]
+                    expect.append({"fr": sim.fractions(), "cur": sim.cur, "completed": completed,
+                                   # every stage has completed: stages other than the current one terminated (in any
+                                   # final states) and were observed, or ended with success only; the current stage,
+                                   # whose contribution IS its progress value, ended with success only
+                                   "complete": all(success[k] or (completed[k] and k != sim.cur) for k in range(n)),
+                                   "all_terminated": all(completed),
+                                   "unsuccessful": sorted(set(f for f in sim.state.values() if f != "finished"))})
             if not ok:
                 ctx.tag("ctl:case-with-an-operation-that-cannot-happen-skipped")
                 continue
             out = impl_ctl(case, tmp)
-            n = len(case["stages"])
+            if outs is not None:
+                outs.append(out)
             grows = sum(1 for o in mops if o[0] == "grow")
-            ctx.case(case, nontrivial=grows >= 1 and len(expect) >= 2,
+            unsucc = sorted(set(f for f in sim.state.values() if f != "finished"))
+            ctx.case(case, nontrivial=(grows >= 1 or bool(unsucc)) and len(expect) >= 2,
                      tags=["ctl:stages:%d" % n, "ctl:restart" if case.get("start") else "ctl:from-stage-0",
-                           "ctl:population-growths:%d" % min(grows, 4)])
+                           "ctl:population-growths:%d" % min(grows, 4)] +
+                          ["ctl:component-ends-" + f for f in unsucc] +
+                          (["ctl:stage-stopped-by-completion-hook"] if any(o[0] == "stop" for o in case["ops"]) else []) +
+                          (["ctl:stage-stopped-by-failure"] if any(o[0] == "stop" for o in mops) and
+                           any(f == "failed" for f in sim.state.values()) else []))
             if out.get("error", "").startswith("load:ExperimentInvalidConfigurationError"):
                 ctx.tag("ctl:package-rejected-as-invalid")
                 continue
             if "error" in out:
                 report(ctx, "controller-history-raises-" + out["error"].split(":")[-1], case, out)
                 continue
-            start = int(case.get("start", 0))
-            seen_growth_after_query = False
             for qi, (q, ex) in enumerate(zip(out["queries"], expect)):
                 upto = 0
                 cnt = -1
@@ -870,20 +1000,53 @@ def check_ctl_cases(ctx, cases):
                     report(ctx, "total-progress-outside-unit-interval", case1, {"total": q["total"], "stage_progress": q["p"]})
                 if ex["complete"]:
                     ctx.tag("ctl:query-when-complete")
+                    if ex["unsuccessful"]:
+                        ctx.tag("ctl:query-when-complete-with-unsuccessful-components")
                     if abs(q["total"] - 1.0) > 1e-6 + 1e-9:
-                        report(ctx, "total-progress-not-one-when-complete", case1, {"total": q["total"], "stage_progress": q["p"]})
+                        report(ctx, "total-progress-not-one-when-complete", case1,
+                               {"total": q["total"], "stage_progress": q["p"], "finished_list": q["finished"],
+                                "in_transit_list": q["transit"], "current": q["cur"]})
+                elif ex["all_terminated"]:
+                    # every component terminated but the CURRENT stage holds SHUTDOWN/FAILED ones: its contribution is
+                    # its progress value (the FINISHED fraction): not a case of the "equals one" clause (see manifest)
+                    ctx.tag("ctl:all-terminated-current-stage-has-unsuccessful-components")
+                # the total is the weighted sum of the per-stage progress values, where a COMPLETED stage (all of its
+                # components terminated - in whatever final states - and observed; not the current one, whose value is
+                # its progress) contributes its weight exactly once
+                ws = out["weights"]
+                vals = []
+                for k in range(n):
+                    if ex["completed"][k] and k != ex["cur"]:
+                        vals.append(Fraction(1))
+                    else:
+                        vals.append(Fraction(0) if q["p"][k] is None else Fraction(q["p"][k]))
+                want = sum((Fraction(w) * v for w, v in zip(ws, vals)), Fraction(0))
+                if abs(Fraction(q["total"]) - want) > Fraction(1, 10 ** 9):
+                    twice = [k for k in range(n) if ex["completed"][k] and k != ex["cur"] and
+                             (k in q["transit"] or q["finished"].count(k) != 1)]
+                    report(ctx, "completed-stage-does-not-contribute-its-weight-exactly-once" if twice else
+                           "total-progress-is-not-the-weighted-sum-of-stage-progress", case1,
+                           {"total": q["total"], "weighted_sum": float(want), "stage_progress": q["p"],
+                            "completed_stages": [k for k in range(n) if ex["completed"][k]], "current": q["cur"],
+                            "finished_list": q["finished"], "in_transit_list": q["transit"],
+                            "stages_in_question": twice, "weights": ws})
                 if q["graph_pop"] != [p for _, p in ex["fr"]]:
                     ctx.tag("ctl:graph-population-differs-from-the-case")    # C05's subject; reported as a disagreement below
             ctx.tag("ctl:queries", len(out["queries"]))
-            # model: Weights.run / queryStage / totalOfStages on the same history
+            # model: Weights.runC / inTransitOf / finishedOf / compTotal on the same history (and Weights.run /
+            # queryStage / totalOfStages when every component ends FINISHED)
             gs = given_of(case["spec"])
             if ctx.driver is None or gs is None:
                 continue
             us = [0 if g is None else g for g in gs]
-            mo = ctx.model([{"op": "stagehist", "stages": [len(ctl_refs(k, st, 1 if st["loop"] else 0))
-                                                             for k, st in enumerate(case["stages"])],
-                             "ws": us,
-                             "ops": [["fin", k, i] for k in range(start) for i in range(case["stages"][k]["static"])] + mops}])[0]
+            pops0 = [len(ctl_refs(k, st, 1 if st["loop"] else 0)) for k, st in enumerate(case["stages"])]
+            reqs = [{"op": "comphist", "stages": pops0, "start": start, "ws": us, "ops": mops}]
+            oldops = old_model_ops(mops)
+            if oldops is not None:
+                reqs.append({"op": "stagehist", "stages": pops0, "ws": us,
+                             "ops": [["fin", k, i] for k in range(start) for i in range(case["stages"][k]["static"])] + oldops})
+            mos = ctx.model(reqs)
+            mo = mos[0]
             ctx.compare("Controller histories: StatusMonitor.stageWeights == Weights.normalize", case,
                         {"weights": mo["weights"]}, {"weights": out["stageWeights"]})
             m_out, i_out = [], []
@@ -894,15 +1057,32 @@ def check_ctl_cases(ctx, cases):
                     mfr[k] = ifr[k] = "earlier-run"
                 exact = Fraction(mq["total"], mq["D"] * UNIT) if mq["D"] else None
                 agree = exact is not None and abs(Fraction(q["total"]) - exact) < Fraction(1, 10 ** 9)
-                m_out.append({"stage_progress": mfr, "population": [p for _, p in mq["stages"]], "total_agrees": True})
+                m_out.append({"stage_progress": mfr, "population": [p for _, p in mq["stages"]], "total_agrees": True,
+                              "current": mq["cur"], "in_transit": mq["transit"], "finished": mq["finished"]})
                 i_out.append({"stage_progress": ifr, "population": q["graph_pop"],
-                              "total_agrees": True if agree else {"impl_total": q["total"], "model_total": float(exact) if exact is not None else None}})
+                              "total_agrees": True if agree else {"impl_total": q["total"], "model_total": float(exact) if exact is not None else None},
+                              "current": q["cur"], "in_transit": sorted(q["transit"]), "finished": sorted(q["finished"])})
                 if [[f, p] for f, p in mq["stages"]] != ex["fr"]:
                     ctx.tag("ctl:model-and-case-bookkeeping-differ")
                     m_out[-1]["bookkeeping"] = mq["stages"]
                     i_out[-1]["bookkeeping"] = ex["fr"]
-            ctx.compare("Controller.get_stage_status == Weights.queryStage (finished/current population) and "
-                        "CheckStatus total == Weights.totalOfStages, at every query of the history", case, m_out, i_out)
+            ctx.compare("Controller.get_stage_status == Weights.scaledC (FINISHED/current population), "
+                        "get_stages_in_transit/get_stages_finished == Weights.inTransitOf/finishedOf (from comp_done) and "
+                        "CheckStatus total == Weights.compTotal, at every query of the history", case, m_out, i_out)
+            if oldops is not None:
+                m_out, i_out = [], []
+                for q, mq in zip(out["queries"], mos[1]["queries"]):
+                    exact = Fraction(mq["total"], mq["D"] * UNIT) if mq["D"] else None
+                    agree = exact is not None and abs(Fraction(q["total"]) - exact) < Fraction(1, 10 ** 9)
+                    mfr = [as_fraction(Fraction(f, p)) if p else None for f, p in mq["stages"]]
+                    ifr = [None if v is None else as_fraction(v) for v in q["p"]]
+                    for k in range(start):
+                        mfr[k] = ifr[k] = "earlier-run"
+                    m_out.append({"stage_progress": mfr, "total_agrees": True})
+                    i_out.append({"stage_progress": ifr, "total_agrees": True if agree else
+                                  {"impl_total": q["total"], "model_total": float(exact) if exact is not None else None}})
+                ctx.compare("Controller.get_stage_status == Weights.queryStage (finished/current population) and "
+                            "CheckStatus total == Weights.totalOfStages, at every query of the history", case, m_out, i_out)
     finally:
         shutil.rmtree(tmp, ignore_errors=True)
 
@@ -921,6 +1101,32 @@ CTL_CORPUS = [
      "stages": [{"static": 2, "loop": 0}, {"static": 1, "loop": 2}, {"static": 1, "loop": 0}],
      "ops": [["q"], ["done", "stage1.0#l0"], ["fc", "stage1.0#l0", "True"], ["q"], ["adv", 1], ["q"],
              ["done", "stage2.s0"], ["q"], ["done", "stage1.s0"], ["done", "stage1.0#l1"], ["q"]]},
+]
+
+
+CTL_CORPUS += [
+    # stage 0 completes with one FINISHED and one SHUTDOWN component; the experiment goes on and completes
+    {"kind": "ctl:corpus:stage-completes-with-a-stopped-component", "start": 0,
+     "spec": [{"u": 200000000}, {"u": 300000000}, {"u": 500000000}],
+     "stages": [{"static": 2, "loop": 0}, {"static": 1, "loop": 0}, {"static": 1, "loop": 0}],
+     "ops": [["q"], ["done", "stage0.s0"], ["fc", "stage0.s0", None], ["term", "stage0.s1", "shutdown"], ["q"],
+             ["fc", "stage0.s1", None], ["q"], ["next"], ["q"], ["done", "stage1.s0"], ["fc", "stage1.s0", None],
+             ["next"], ["q"], ["done", "stage2.s0"], ["q"], ["fc", "stage2.s0", None], ["q"]]},
+    # continue-on-error: a component of stage 0 fails, the controller stops its stage mates; stage 1 is stopped by
+    # the completion hook after its DoWhile ran one extra iteration; the last stage ends with success
+    {"kind": "ctl:corpus:failure-and-completion-hook", "start": 0,
+     "spec": [{"u": 100000000}, {"u": 600000000}, {"u": 300000000}],
+     "stages": [{"static": 3, "loop": 0}, {"static": 1, "loop": 1}, {"static": 2, "loop": 0}],
+     "ops": [["done", "stage0.s0"], ["term", "stage0.s1", "failed"], ["q"], ["fc", "stage0.s1", None], ["q"],
+             ["fc", "stage0.s0", None], ["q"], ["next"], ["q"], ["done", "stage1.0#l0"], ["fc", "stage1.0#l0", "True"],
+             ["q"], ["done", "stage2.s0"], ["stop", 1], ["q"], ["next"], ["q"], ["fc", "stage2.s0", None],
+             ["done", "stage2.s1"], ["fc", "stage2.s1", None], ["q"]]},
+    # restart at stage 1; the current stage ends FAILED + SHUTDOWN, the last stage with success
+    {"kind": "ctl:corpus:restart-then-failure", "start": 1,
+     "spec": [{"u": 250000000}, {"u": 250000000}, {"u": 500000000}],
+     "stages": [{"static": 2, "loop": 0}, {"static": 2, "loop": 0}, {"static": 1, "loop": 0}],
+     "ops": [["q"], ["term", "stage1.s0", "failed"], ["fc", "stage1.s0", None], ["q"], ["next"], ["q"],
+             ["done", "stage2.s0"], ["fc", "stage2.s0", None], ["q"]]},
 ]
 
 
@@ -1121,7 +1327,18 @@ def run(ctx):
                 "instantiated directly; the stage loop moves on (Controller.initialise); query = the real "
                 "Controller.get_stage_status of every stage + one real CheckStatus (real get_stages_in_transit / "
                 "get_stages_finished) -> total progress; queries before and after every growth of a stage; "
-                "non-trivial = the population of a stage grows at least once and there are >= 2 queries.")
+                "non-trivial = (the population of a stage grows at least once or a component ends SHUTDOWN/FAILED) and "
+                "there are >= 2 queries. Final states: in the 'finals' histories (2-5 stages, with and without DoWhile) "
+                "components end FINISHED / SHUTDOWN (ComponentState.finish, what _stopComponents does) / FAILED (task exits "
+                "with KnownIssue) in five mixes; the real finishedCheck is delivered for them in any order (a delivered "
+                "FAILED component of the current or an earlier stage makes the real controller fake-finish and stop its "
+                "stage mates: continue-on-error style continuation), the body of the IsStageComplete closure of "
+                "_observe_completionCheck (real _fake_finish_with_state + _stopComponents) stops the running stage, "
+                "the stage loop moves on, queries after every stop / stage step; oracle: a stage all of whose components "
+                "terminated and were observed, other than the current one, contributes its weight exactly once "
+                "(total == sum of weight x progress over the other stages + those weights), total in [0,1+1e-6], total == 1 "
+                "once every stage completed (non-current stages in any final states, current stage with success only). "
+                "12 (60 thorough) histories are run again at the end in another order and must give identical answers.")
     ctx.assumptions = ["CPython float addition error on the generated sums (< 1e-12) is below one model unit (1e-9); "
                        "generated sums are kept >= 2 units away from the 1e-6 tolerance boundary",
                        "scripted-controller part: a scripted controller supplies stage progress values; Controller-history "
@@ -1174,8 +1391,25 @@ def run(ctx):
         mcases.append((kind, spec, [gen_scenario(rng, len(spec)) for _ in range(2)]))
     mcases += MONITOR_SCENARIO_CORPUS
     check_monitor_cases(ctx, mcases)
-    ccases = list(CTL_CORPUS) + [gen_ctl_case(rng) for _ in range(60 if quick else 500)]
-    check_ctl_cases(ctx, ccases)
+    ccases = list(CTL_CORPUS) + [gen_ctl_case(rng, "success") for _ in range(40 if quick else 300)]
+    ccases += [gen_ctl_case(rng, "finals") for _ in range(60 if quick else 500)]
+    outs = []
+    check_ctl_cases(ctx, ccases, outs)
+    # the same histories again, later in this process, in another order, after unrelated ones (same component names in
+    # other roles): the controller's answers must not depend on what ran before
+    again = [i for i in range(len(ccases)) if len(outs) == len(ccases)]
+    rng.shuffle(again)
+    tmp = tempfile.mkdtemp(prefix="c20again-")
+    try:
+        for i in again[: (12 if quick else 60)]:
+            second = impl_ctl(ccases[i], tmp)
+            ctx.tag("ctl:history-run-again-later")
+            if second.get("queries") != outs[i].get("queries") or second.get("error") != outs[i].get("error"):
+                report(ctx, "result-depends-on-earlier-cases", ccases[i],
+                       {"first": outs[i].get("queries"), "again": second.get("queries"),
+                        "errors": [outs[i].get("error"), second.get("error")]})
+    finally:
+        shutil.rmtree(tmp, ignore_errors=True)
 
 
 def replay(ctx, doc):
